@@ -157,6 +157,15 @@ def run(ctx: Ctx, only=None):
             "b", "(a)", "()", "", "2 2", "2**2", "2^0", "0**2", "2 + 1", "(2+1)", "`2`"]
     inputs = [(b + o + e, rng.random() < 0.8, (True, True, False), None) for b in bases for o in pops for e in exps]
     _run_stream(ctx, "powers", inputs)
+    # 3d. Python fragments of unusual shape (callees that are not names, subscripts, lambdas, comprehensions, conditional expressions, keyword
+    #     arguments, string literals with operator characters), on either side of '~' and between operators: whatever the variable extraction
+    #     or the normalisation makes of them, only the library's error (or SyntaxError for invalid Python) may come out
+    frags = ["a[0](b)", "f(a)(b)", "f(a)[0]", "{(lambda: 1)()}", "{a if b else c}", "f(x=[i for i in a])", "f({1:2}[a])", "{a[0](b)}", "f(g(a)(b))",
+             "f(a).g(b)", "{a.b.c(d)}", "{-a}", "{not a}", "f(*a, **b)", "{[a, b][0]}", "f(a)(", "{a[}", "f(lambda: a)", "{(a, b)}", "f(a := b)",
+             "{a @ b}", "f('~ | +')", "{f'{a}'}", "{a[1:2]}", "{...}", "{a(b)(c)(d)}", "f(a)()", "{await a}", "{yield}", "{a = b}", "f(a=)", "{1 if}"]
+    shapes = ["{0}", "{0} ~ y", "y ~ {0}", "{0} + b", "b:{0}", "({0} + a)**2", "{0} ~ {0}", "{0} | b", "y ~ a | {0}", "{0} ~ .", "-{0}", "a %in% {0}", "{0} {0}"]
+    inputs = [(sh.replace("{0}", fr), rng.random() < 0.7, (True, True, False), rng.choice([None, ["a", "b", "y"]])) for fr in frags for sh in shapes]
+    _run_stream(ctx, "pyfrag", inputs)
     # 3c. parser objects with a history (re-configured, copied, pickled)
     _lifecycle(ctx, rng)
     # 4. multistage enabled: implementation-side oracle only (the model does not cover nested results)
